@@ -2,11 +2,19 @@
 from checks import lintlib as L
 
 MODULES = ["TLVerif.Props.C29"]
-THEOREMS = ["TLVerif.Props.C29." + t for t in []]
+THEOREMS = ["TLVerif.Props.C29." + t for t in [
+    "lint_refl",
+    "accepts_insertions",
+    "accepts_append_constructor_to_union",
+    "accepts_append_constructor_boxed",
+    "accepts_new_type",
+    "accepts_new_function",
+    "accepts_append_masked_field"]]
 
 
 def run(c):
-    c.lean(MODULES, THEOREMS)
+    c.lean(MODULES, THEOREMS, sources=["TLVerif.Lint.Ast", "TLVerif.Lint.Core", "TLVerif.Lint.Spec", "TLVerif.Lint.CoreLemmas",
+                                       "TLVerif.Lint.Examples", "TLVerif.Lint.Driver"])
     model = c.model_exe()
     impl = c.harness("hlint")
     c.trusted += ["go/hlint harness: token -> TL text renderer (self-checked: the real parser's AST must dump back to the same tokens)",
